@@ -40,6 +40,30 @@ pub fn run(c: &[S]) -> Option<S> {
                 Err(()) => S::atom("ERR"),
             }
         }
+        // variable_name_assignment(): the pairs (variable, name) sorted by variable
+        "vs_assignment" => {
+            let vs = crate::areas::area_varset::d_set(&a[0]);
+            let mut m: Vec<(BddVariable, String)> = vs.variable_name_assignment().into_iter().collect();
+            m.sort();
+            S::list("L", m.iter().map(|(v, n)| S::list("P", vec![S::int(v.to_index()), e_hex(n.as_bytes())])).collect())
+        }
+        // BddVariableSetBuilder::make::<3>: the array form of make_variables
+        "vs_make3" => {
+            let names = d_names(&a[0]);
+            if names.len() != 3 {
+                panic!("harness: vs_make3 needs three names");
+            }
+            let mut builder = BddVariableSetBuilder::new();
+            let [x, y, z] = builder.make(&[names[0].as_str(), names[1].as_str(), names[2].as_str()]);
+            let vs = builder.build();
+            S::list(
+                "P",
+                vec![
+                    S::list("L", vec![S::int(x.to_index()), S::int(y.to_index()), S::int(z.to_index())]),
+                    S::list("L", vs.variable_names().iter().map(|s| e_hex(s.as_bytes())).collect()),
+                ],
+            )
+        }
         "val_hist" => {
             let st = a[0].as_list();
             let mut v = match st[0].as_atom() {
